@@ -25,11 +25,21 @@ FILTERS = [
     ("ufo2ft.filters.reverseContourDirection", "ReverseContourDirectionFilter"), ("ufo2ft.filters.skipExportGlyphs", "SkipExportGlyphsFilter"),
     ("ufo2ft.filters.sortContours", "SortContoursFilter"), ("ufo2ft.filters.transformations", "TransformationsFilter"),
 ]
+# interpolatable variants: frame clauses only (root __call__(fonts=SRC, glyphSets=GS), i.e. the use without an
+# instantiator; the with-instantiator use is covered by the designspace / variable roots of C07). The observer below
+# runs the single-font filters; the joint behaviour of the I-filters is C09's.
+IFILTERS = [
+    ("ufo2ft.filters.decomposeComponents", "DecomposeComponentsIFilter"),
+    ("ufo2ft.filters.decomposeTransformedComponents", "DecomposeTransformedComponentsIFilter"),
+    ("ufo2ft.filters.flattenComponents", "FlattenComponentsIFilter"),
+    ("ufo2ft.filters.propagateAnchors", "PropagateAnchorsIFilter"),
+    ("ufo2ft.filters.skipExportGlyphs", "SkipExportGlyphsIFilter"),
+]
 
 
 def frame_part(out_dir):
     known = fc.load_known(PID)
-    specs = [{"name": n, "module": m, "kind": "filter", "cuts": []} for m, n in FILTERS]
+    specs = [{"name": n, "module": m, "kind": "filter", "cuts": []} for m, n in FILTERS + IFILTERS]
     res = fc.run_roots(specs)
     obligations = discharged = 0
     violations, knowns, samples = [], [], []
@@ -245,6 +255,6 @@ def c14(tier, seed):
         "evaluations": ob["evaluations"], "distinct": ob["evaluations"],
         "bounded": [{"what": "every shipped filter x option variants x fixture fonts: (1) a filter object reused across fonts gives the same glyphs and the same reported set as a fresh one, (2) every glyph that changed/was added/removed is in the reported set, (3) the source font is deep-equal before/after when a separate glyph set is passed, (4) glyphs neither included nor referenced as components by included glyphs are unchanged", "bound": f"{ob['evaluations']} (filter, variant, fixture) runs", "result": "clean" if not ob["violations"] else "violations"}],
         "trusted": ["frames catalogue (see C07)"],
-        "explanation": f"frame obligations: {fr['obligations']} mutation sites over {len(FILTERS)} filter classes with root __call__(font=SRC, glyphSet=GS), {fr['discharged']} discharged, {len(fr['known'])} attributed to known findings (F5, F6); observer {ob['evaluations']} runs (bounded).",
+        "explanation": f"frame obligations: {fr['obligations']} mutation sites over {len(FILTERS)} filter classes and {len(IFILTERS)} interpolatable variants with root __call__(font=SRC, glyphSet=GS), {fr['discharged']} discharged, {len(fr['known'])} attributed to known findings (F5, F6); observer {ob['evaluations']} runs (bounded).",
         "frame_samples": fr["samples"],
     }
